@@ -27,7 +27,7 @@ type c02Case struct {
 
 var (
 	c02Owners     = []string{"A", "P", "S", "SP"}
-	c02Flows      = []string{"code", "oidc", "hyb-idt", "par", "par-extra-redirect", "dup-redirect-param"}
+	c02Flows      = []string{"code", "oidc", "hyb-idt", "par", "par-extra-redirect", "dup-redirect-param", "code-noscope"}
 	c02Positions  = []string{"fresh", "after-other-grant", "after-refresh-chain", "after-revocation"}
 	c02Presenters = []string{"owner", "foreign-confidential", "foreign-public", "owner-wrong-secret"}
 	c02Redirs     = []string{"equal", "absent", "other-registered", "percent-encoded", "host-case", "trailing-slash", "with-fragment", "unregistered", "query-added"}
@@ -68,7 +68,16 @@ func c02Run(c c02Case, res *WRes) {
 		params.Set("redirect_uri", regURI)
 	}
 	granted := []string{"offline", "a"}
+	wantAud := []string{"https://api.example/a"}
 	switch c.Flow {
+	case "code-noscope":
+		// the authorization asks for (and is granted) no scope and no audience, and the token endpoint belongs to an
+		// integrator that grants whatever the access request says was requested: a smuggled scope/audience must not
+		// become "requested"
+		params.Del("scope")
+		params.Del("audience")
+		granted = []string{}
+		wantAud = []string{}
 	case "oidc":
 		params.Set("scope", "openid offline a")
 		params.Set("nonce", "nonce-12345678")
@@ -84,6 +93,9 @@ func c02Run(c c02Case, res *WRes) {
 		carried = true
 	}
 	opts := AuthzOpts{Subject: "user-1"}
+	if c.Smuggle == "partial-consent" && c.Flow == "code-noscope" {
+		return // nothing is requested in this flow, so there is nothing to consent to partially
+	}
 	if c.Smuggle == "partial-consent" {
 		// the client asks for more than the resource owner grants
 		params.Set("scope", params.Get("scope")+" photos")
@@ -208,7 +220,8 @@ func c02Run(c c02Case, res *WRes) {
 		auth.Extra = url.Values{"client_id": {other}}
 	}
 	before := w.StateKey()
-	o := w.Token(form, auth)
+	topt := TokenOpts{GrantAll: true, GrantRequested: c.Flow == "code-noscope"}
+	o := w.TokenWith(form, auth, topt)
 	res.Trans++
 	got := issued(o)
 	mayIssue := c.Present == "owner" && (!carried || sameRedirect) && !expired
@@ -237,7 +250,7 @@ func c02Run(c c02Case, res *WRes) {
 			res.note("sanity:legit-attempt-refused")
 		}
 		// the rightful holder can still use the code
-		lo := w.Token(url.Values{"grant_type": {"authorization_code"}, "code": {code}, "redirect_uri": {regURI}}, w.AuthFor(c.Owner))
+		lo := w.TokenWith(url.Values{"grant_type": {"authorization_code"}, "code": {code}, "redirect_uri": {regURI}}, w.AuthFor(c.Owner), topt)
 		res.Trans++
 		if expired {
 			if issued(lo) {
@@ -269,8 +282,8 @@ func c02Run(c c02Case, res *WRes) {
 		}
 	}
 	aud, _ := io.JSON["aud"].([]any)
-	if len(aud) != 1 || aud[0] != "https://api.example/a" {
-		viol("C02/token-audience-differs-from-grant/smuggle="+c.Smuggle, fmt.Sprintf("access token carries audience %v, granted [https://api.example/a]", aud), "[https://api.example/a]", io.JSON)
+	if len(aud) != len(wantAud) || (len(aud) == 1 && aud[0] != wantAud[0]) {
+		viol("C02/token-audience-differs-from-grant/smuggle="+c.Smuggle, fmt.Sprintf("access token carries audience %v, granted %v", aud, wantAud), fmt.Sprint(wantAud), io.JSON)
 	}
 	if io.Str("sub") != "user-1" {
 		viol("C02/token-subject-differs-from-grant", fmt.Sprintf("access token carries subject %q, granted user-1", io.Str("sub")), "user-1", io.JSON)
